@@ -683,7 +683,18 @@ def k34_paths(ctx, facts, disp, roles, cfg):
     vkey = roles["valid"][0]
     # without a length-check function the dispatcher asks the length predicate itself: the check *is* the atom
     # `predicate(descriptor, &len(list)) = true` on the path, and its failure side is read on the dispatcher's paths
-    rd = GuardReader(disp, skip={unary_key, chk_key} if chk_key else {unary_key, vkey})
+    skip_ = {unary_key, chk_key} if chk_key else {unary_key, vkey}
+    rd = GuardReader(disp, skip=skip_)
+    if rd.readable and rd.truncated_success:
+        # a loop on the way to a success exit: when all it does is move the items of an iterator into a vector it is read
+        # as the `extend` it is (rules/x_loops.py); any other loop stays unread
+        from . import x_loops
+        import copy as _copy
+        nb = x_loops.collect_view(b)
+        if nb is not None:
+            disp = _copy.copy(disp)
+            disp.body = b = nb
+            rd = GuardReader(disp, skip=skip_)
     w = rd.w
     where = b.where(disp.success[0][0], disp.success[0][1]) if disp.success else b.where()
     if not rd.readable or rd.truncated_success or not rd.success:
